@@ -38,8 +38,10 @@ Rules(lists, p) ==
                                         [op |-> "lookup", key |-> Cat(<< Slice(Plain, 8, 9), Slice(Plain, 10, 11) >>), table |-> Table(lists, p),
                                          default |-> Msg(<<220, 0, 0>>)], [i \in 1..16 |-> i]), [kind |-> "page"]) >>] >>
 \* counts: per family per entity; ipmiErr: the BMC rejects IPMI entity IDs with CCh
-Scenario(id, k, ci, cd, ipmiErr, p) ==
-  LET lists == [j \in 1..6 |-> IF j <= 3 THEN [e |-> Ipmi[j], ids |-> Ids(k, j, ci[j]), err |-> ipmiErr]
+\* errAt: 0 = no error, 4 = every IPMI entity ID is refused, 1..3 = only that one (the ones before it are answered)
+ScenarioE(id, k, ci, cd, errAt, p) ==
+  LET ipmiErr == errAt > 0
+      lists == [j \in 1..6 |-> IF j <= 3 THEN [e |-> Ipmi[j], ids |-> Ids(k, j, ci[j]), err |-> (errAt = 4 \/ errAt = j)]
                                          ELSE [e |-> Dcmi[j - 3], ids |-> Ids(k, j, cd[j - 3]), err |-> FALSE]]
       useDcmi == ipmiErr \/ (ci[1] + ci[2] + ci[3] = 0)
       pick(j) == IF useDcmi THEN lists[j + 3].ids ELSE lists[j].ids
@@ -50,6 +52,23 @@ Scenario(id, k, ci, cd, ipmiErr, p) ==
                    [k |-> "call", api |-> "DcmiGetSensorInfo", label |-> "sensorinfo", target |-> "sess", ctx |-> [ms |-> 20000],
                     exp |-> [prop |-> "C16", outcome |-> "value", value |-> [Inlet |-> pick(1), CPU |-> pick(2), Baseboard |-> pick(3)],
                              maxreqs |-> pages(ci[1]) + pages(ci[2]) + pages(ci[3]) + pages(cd[1]) + pages(cd[2]) + pages(cd[3])]] >>]
+Scenario(id, k, ci, cd, ipmiErr, p) == ScenarioE(id, k, ci, cd, IF ipmiErr THEN 4 ELSE 0, p)
+\* a BMC whose responses carry more record IDs than its instance count says, on every page, for ever: the enumeration
+\* must still end (C05); and faults of the fall-back queries after the standard IDs gave nothing: an error, never
+\* success without a result (C13)
+Odd(id, prop, ipmiBody, dcmiDgs, exp) ==
+  [id |-> id, prefix |-> "hs", info |-> [family |-> "dcmi-odd", insess |-> TRUE, integLen |-> S.integLen, bmcSid |-> S.bmcSid, page |-> 0, ipmi |-> <<0, 0, 0>>, dcmi |-> <<0, 0, 0>>, ipmiErr |-> FALSE],
+   steps |-> << [k |-> "rules", rules |-> <<
+                   [rule |-> "dcmi-ids", when |-> <<IsSensorInfo, Eq(Slice(Plain, 8, 9), B(<<64>>))>>, datagrams |-> dcmiDgs],
+                   [rule |-> "dcmi-ids", when |-> <<IsSensorInfo, Eq(Slice(Plain, 8, 9), B(<<65>>))>>, datagrams |-> dcmiDgs],
+                   [rule |-> "dcmi-ids", when |-> <<IsSensorInfo, Eq(Slice(Plain, 8, 9), B(<<66>>))>>, datagrams |-> dcmiDgs],
+                   [rule |-> "ipmi-ids", when |-> <<IsSensorInfo>>, datagrams |-> << Dg(DynSessPacket(S, <<1, 0, 0, 0>>, Msg(ipmiBody), [i \in 1..16 |-> i]), [kind |-> "page"]) >>] >>],
+                [k |-> "call", api |-> "DcmiGetSensorInfo", label |-> "sensorinfo", target |-> "sess", ctx |-> [ms |-> 3000], exp |-> [prop |-> prop] @@ exp] >>]
+OddSet ==
+  { Odd("over-" \o ToString(t), "C05", <<220, t, 2, 16, 0, 17, 0>>, << Dg(DynSessPacket(S, <<1, 0, 0, 0>>, Msg(<<220, t, 2, 16, 0, 17, 0>>), [i \in 1..16 |-> i]), [kind |-> "page"]) >>,
+        [outcome |-> "any", maxreqs |-> 3 * 130]) : t \in {0, 1, 3, 255} }
+  \cup { Odd("fb-lost", "C13", <<220, 0, 0>>, <<>>, [outcome |-> "error", value |-> <<>>]),
+         Odd("fb-refused", "C13", <<220, 0, 0>>, << Dg(DynSessPacket(S, <<1, 0, 0, 0>>, ErrMsg(193), [i \in 1..16 |-> i]), [kind |-> "page"]) >>, [outcome |-> "error", value |-> <<>>]) }
 Counts == IF Full THEN 0..255 ELSE {0, 1, 2, 3, 7, 8, 9, 15, 16, 17, 24, 25, 64, 254, 255}
 Pages == IF Full THEN 1..8 ELSE {1, 3, 8, 1 + (Seed % 8)}
 Scripts ==
@@ -59,12 +78,16 @@ Scripts ==
   \cup { Scenario("fb-" \o ToString(n) \o "-" \o ToString(p) \o (IF er THEN "E" ELSE "Z"), 900 + n * 8 + p, IF er THEN <<3, 1, 2>> ELSE <<0, 0, 0>>, <<n, n % 5, (n * 3) % 11>>, er, p)
            : n \in (Counts \cap 0..64), p \in Pages, er \in BOOLEAN }
   \cup { Scenario("none-" \o ToString(p), 77, <<0, 0, 0>>, <<0, 0, 0>>, FALSE, p) : p \in Pages }
+  \* an error for a later standard entity after earlier ones produced record IDs: still "an error", so the DCMI IDs are used
+  \cup { ScenarioE("perr-" \o ToString(e) \o "-" \o ToString(p), 700 + e, <<11, 2, 4>>, <<3, 1, 9>>, e, p) : e \in 1..3, p \in {1, 3, 8, 0} }
   \cup { Scenario("var-" \o ToString(n) \o "-" \o ToString(v), 500 + n, <<IF v = 0 THEN n ELSE 2, IF v = 1 THEN n ELSE 5, IF v = 2 THEN n ELSE 11>>, <<2, 0, 1>>, FALSE, 0)
            : n \in (IF Full THEN 0..255 ELSE {0, 1, 7, 8, 9, 12, 20, 30, 64, 129, 255}), v \in 0..2 }
   \cup { Scenario("varfb-" \o ToString(n), 600 + n, <<0, 0, 0>>, <<n, 9, 20>>, FALSE, 0) : n \in {1, 8, 20, 30} }
+AllScripts == Scripts
+Chosen == IF Family = "odd" THEN OddSet ELSE AllScripts
 Header == [header |-> TRUE, family |-> "dcmi", defs |-> SessionDefs(S) @@ [ReqPlainT |-> ReqPlain(S)], stable |-> <<"SIK", "K1", "K2">>,
            session |-> SessionRecipes(S), prefixes |-> [hs |-> HandshakeSteps(S)]]
 ASSUME PrintT(<<"HEADER", ToJson(Header)>>)
-ASSUME \A s \in Scripts : PrintT(<<"SCRIPT", ToJson(s)>>)
-ASSUME PrintT(<<"COUNT", ToJson([n |-> Cardinality(Scripts)])>>)
+ASSUME \A s \in Chosen : PrintT(<<"SCRIPT", ToJson(s)>>)
+ASSUME PrintT(<<"COUNT", ToJson([n |-> Cardinality(Chosen)])>>)
 =============================================================================
